@@ -960,3 +960,25 @@ Proof.
   destruct (profile_one_row_rectangular _ _ _ E) as [H1 H2]. unfold sreq_ok. cbn [sr_cols]. rewrite H1, H2. reflexivity.
 Qed.
 Print Assumptions profile_pushes_never_fail_a_shared_batch.
+
+(* ---- the gzip layer of a pprof body (fix 5) ------------------------------------------------------------- *)
+
+(* Parse in golangPprof.go (both /ingest routes) inflates a gzip-compressed profile itself, through helpers.LimitDecoded and
+   io.ReadAll (limited_reader_never_delivers_more_than_the_limit, read_all_over_the_limiter), and refuses what is still gzip
+   afterwards: the profile parser below never inflates.  For every body -- any number of nested gzip layers of any sizes --
+   at most `limit` bytes are inflated and the parser is handed at most max(wire, limit) bytes. *)
+Theorem profile_gzip_layer_bounded : forall limit wire layers, (0 <= limit)%Z ->
+  (snd (pprof_guard limit wire layers) <= limit)%Z /\
+  match fst (pprof_guard limit wire layers) with PpParsed n => (n <= Z.max wire limit)%Z | PpRefused => True end.
+Proof. exact pprof_guard_bounded. Qed.
+Print Assumptions profile_gzip_layer_bounded.
+
+Theorem profile_gzip_layer_in_source : strs_eqb' gen_pprof_parse_guard pprof_parse_guard_model = true.
+Proof. vm_compute. reflexivity. Qed.
+Print Assumptions profile_gzip_layer_in_source.
+
+(* the defect, for the record: google/pprof ParseData inflated the body whole (180 KB on the wire -> 940 MB allocated) *)
+Theorem profile_gzip_layer_was_unbounded_before_the_fix : forall limit, (0 <= limit)%Z ->
+  exists layers, (limit < snd (pprof_guard_orig 0 layers))%Z.
+Proof. exact pprof_guard_orig_unbounded. Qed.
+Print Assumptions profile_gzip_layer_was_unbounded_before_the_fix.
